@@ -228,10 +228,7 @@ func (t *tr) ret(s *ast.ReturnStmt) string {
 			t.fail("return of an error whose state is unknown")
 		}
 	}
-	var vals []*val
-	for i := 0; i < len(t.results); i++ {
-		vals = append(vals, t.eval(s.Results[i]))
-	}
+	vals := t.evalAll(s.Results[:len(t.results)]...) // (earlier results are held while later ones are evaluated)
 	return t.success(vals)
 }
 
@@ -273,6 +270,9 @@ func (t *tr) success(vals []*val) string {
 				t.fail("the returned pointer is a parameter on some paths and not on others")
 			}
 			t.retAlias = al
+			t.noteResAlias(v, al)
+		} else {
+			t.noteResAlias(v, -1)
 		}
 	}
 	var e string
@@ -290,6 +290,65 @@ func (t *tr) success(vals []*val) string {
 		return "Ok " + par(e)
 	}
 	return e
+}
+
+// noteResAlias records the parameters whose integers are reachable from the
+// returned value v (self: v IS that parameter, which call sites handle as an
+// alias): the caller must not write them in place while the result lives.
+func (t *tr) noteResAlias(v *val, self int) {
+	seen := map[*object]bool{}
+	var cellOf func(c *cell)
+	cellOf = func(c *cell) {
+		if c == nil {
+			return
+		}
+		if (c.origin == oPField || (c.origin == oParam && c.pidx != self)) && c.pidx >= 0 {
+			t.resAlias[c.pidx] = true
+		}
+		cellOf(c.shares)
+	}
+	var visit func(v *val)
+	visit = func(v *val) {
+		if v == nil || v.isNil {
+			return
+		}
+		cellOf(v.c)
+		if v.el != nil {
+			cellOf(v.el.c)
+		}
+		if o := v.o; o != nil && !seen[o] {
+			seen[o] = true
+			isSelf := o.origin == oParam && o.pidx == self && o.owner == nil
+			if !isSelf && o.pw && o.pidx >= 0 && (o.whole != "" || o.origin == oParamVal) {
+				t.resAlias[o.pidx] = true // (a part of a parameter, or a by-value copy holding its pointers)
+			}
+			for _, fv := range o.f {
+				visit(fv)
+			}
+		}
+	}
+	visit(v)
+}
+
+// protect forbids in-place writes to everything reachable from v (call sites
+// of a function whose result may alias an argument).
+func (t *tr) protect(v *val, why string) {
+	if v == nil || v.isNil {
+		return
+	}
+	if v.c != nil {
+		t.setNoWrite(v.c, why)
+	}
+	if v.el != nil {
+		t.setNoWrite(v.el.c, why)
+	}
+	if o := v.o; o != nil && o.ro == "" {
+		t.log = append(t.log, logEnt{undo: func() { o.ro = "" }})
+		o.ro = why // (field cells created later inherit it: state.go field)
+		for _, fv := range o.f {
+			t.protect(fv, why)
+		}
+	}
 }
 
 // poison: after a failed call the pointee of a written argument has an
